@@ -167,6 +167,7 @@ def check(case):
 
 def run(ctx):
     ctx.corpus(check)
+    ctx.known(check)
     ctx.given(cases(), check, quick=40, thorough=1200, shrink=not ctx.quick)
 
 
